@@ -45,6 +45,28 @@ pub fn tree() -> impl Strategy<Value = Expr> {
     })
 }
 
+/// Quantities with a small magnitude (so the exact value stays a few hundred bits) raised to integer powers well
+/// beyond the -3..3 of the trees: -80..80, with the machine-word neighbours 31, 32, 33, 63, 64, 65 drawn often.
+fn large_exponent() -> impl Strategy<Value = Expr> {
+    let small = prop_oneof![Just("2"), Just("3"), Just("-2"), Just("0.5"), Just("10"), Just("1.5"), Just("-1"), Just("7")].prop_map(Lit::from_text);
+    let n = prop_oneof![
+        3 => -80i32..=80,
+        2 => prop_oneof![Just(31i32), Just(32), Just(33), Just(40), Just(63), Just(64), Just(65), Just(-31), Just(-32), Just(-33), Just(-40), Just(-63), Just(-64), Just(-65), Just(-48), Just(-72)],
+    ];
+    let base = prop_oneof![
+        3 => (small.clone(), gen::single_unit()).prop_map(|(l, u)| Expr::Qty(l, u)),
+        2 => (small.clone(), free_spelling(2, 2)).prop_map(|(l, u)| Expr::Qty(l, u)),
+        1 => small.prop_map(Expr::Num),
+    ];
+    (base, n, prop::option::weighted(0.3, (lit(), gen::single_unit()))).prop_map(|(b, n, other)| {
+        let p = Expr::Pow(Box::new(Expr::Paren(Box::new(b))), n);
+        match other {
+            Some((l, u)) => Expr::bin(Op::Mul, p, Expr::Qty(l, u)),
+            None => p,
+        }
+    })
+}
+
 fn classify(e: &Expr) -> (bool, Vec<&'static str>) {
     let mut derived_or_prefixed = false;
     let mut pow_on_unit = false;
@@ -200,13 +222,14 @@ fn check(e: &Expr) -> CaseReport {
 }
 
 pub fn run_check(ctx: &Ctx) {
-    ctx.set_rule("expression trees over quantity leaves (compound, derived, prefixed, powered units incl. spellings whose base powers cancel; one leaf in eight is a parenthesised sum, difference or cast of two commensurable quantities) with * / ^n (n in -3..3 incl. 0) and parentheses; oracle: reference evaluation on (SI value, dimension vector) pairs, the tool's result normalised through the Compound mirror and own arithmetic must match exactly whatever unit it displays; no unit entry with power 0; also `(x u^a)^b` with a*b around the 32-bit boundary (the power fits: that power of u; it does not: an error, never a value with another unit) and exponents that carry a unit, written or computed (always an error); non-trivial = >=2 operators and a derived or prefixed unit; distinct by query text");
+    ctx.set_rule("expression trees over quantity leaves (compound, derived, prefixed, powered units incl. spellings whose base powers cancel; one leaf in eight is a parenthesised sum, difference or cast of two commensurable quantities) with * / ^n (n in -3..3 incl. 0) and parentheses; oracle: reference evaluation on (SI value, dimension vector) pairs, the tool's result normalised through the Compound mirror and own arithmetic must match exactly whatever unit it displays; no unit entry with power 0; small quantities raised to integer powers -80..80 (word-size neighbours 31..33, 63..65 drawn often); also `(x u^a)^b` with a*b around the 32-bit boundary (the power fits: that power of u; it does not: an error, never a value with another unit) and exponents that carry a unit, written or computed (always an error); non-trivial = >=2 operators and a derived or prefixed unit; distinct by query text");
     let corpus: Vec<(String, QCase)> = load_corpus("C04");
     let cases: Vec<QCase> = corpus.into_iter().map(|c| c.1).collect();
     ctx.run_list("corpus", &cases, |c| judge(shared_db(), c), |c| to_json(c));
     let n = ctx.tier.pick(100_000u64, 2_000_000);
     ctx.run_gen("exponent-with-a-unit", exponent_with_a_unit, 2_000, |c| judge(shared_db(), c), |c| to_json(c));
     ctx.run_gen("power-boundary", power_boundary, 3_000, |c| judge(shared_db(), c), |c| to_json(c));
+    ctx.run_gen("large-exponents", large_exponent, n / 8, check, |e| make_case(e).map(|c| to_json(&c)).unwrap_or(Value::Null));
     ctx.run_gen("generated", tree, n, check, |e| make_case(e).map(|c| to_json(&c)).unwrap_or(Value::Null));
 }
 
